@@ -21,6 +21,13 @@ from feems.types_for_feems import (TypeComponent, TypePower, Power_kW, Speed_rpm
 ca = comps.curve_array
 
 
+def num(spec, key="rated"):
+    """A rating as the user wrote it: a Python int when the spec is marked `int_rating` and the value is whole
+    (`rated_power=1000`), a float otherwise."""
+    v = spec[key]
+    return int(v) if (spec.get("int_rating") and float(v).is_integer()) else v
+
+
 # ------------------------------------------------------------------ builders
 
 def build_engine(e, type_=TypeComponent.AUXILIARY_ENGINE):
@@ -29,7 +36,7 @@ def build_engine(e, type_=TypeComponent.AUXILIARY_ENGINE):
         curves = [EmissionCurve(points_per_kwh=[EmissionCurvePoint(load_ratio=p[0], emission_g_per_kwh=p[1]) for p in c["points"]],
                                 emission=EmissionType[c["species"]]) for c in e["emissions"]]
     kw = dict(type_=type_, nox_calculation_method=NOxCalculationMethod[e.get("nox", "TIER_2")], name=e.get("name", "engine"),
-              rated_power=Power_kW(e["rated"]), rated_speed=Speed_rpm(e.get("speed", 1000.0)), bsfc_curve=ca(e["bsfc"]),
+              rated_power=Power_kW(num(e)), rated_speed=Speed_rpm(e.get("speed", 1000.0)), bsfc_curve=ca(e["bsfc"]),
               fuel_type=TypeFuel[e.get("fuel_type", "DIESEL")], fuel_origin=FuelOrigin[e.get("fuel_origin", "FOSSIL")],
               emissions_curves=curves, engine_cycle_type=EngineCycleType[e.get("cycle", "DIESEL")])
     if e.get("dual"):
@@ -40,14 +47,14 @@ def build_engine(e, type_=TypeComponent.AUXILIARY_ENGINE):
 
 
 def build_machine(m, power_type, swb, type_=TypeComponent.GENERATOR, name=None):
-    return ElectricMachine(type_=type_, name=name or m.get("name", "machine"), rated_power=Power_kW(m["rated"]),
+    return ElectricMachine(type_=type_, name=name or m.get("name", "machine"), rated_power=Power_kW(num(m)),
                            rated_speed=Speed_rpm(m.get("speed", 1000.0)), power_type=power_type,
                            switchboard_id=SwbId(swb), eff_curve=ca(m["curve"]))
 
 
 def build_basic(c, swb=0, power_type=TypePower.NONE, name=None):
     return ElectricComponent(type_=TypeComponent[c.get("type", "POWER_CONVERTER")], name=name or c.get("name", "comp"),
-                             rated_power=Power_kW(c["rated"]), eff_curve=ca(c["curve"]), power_type=power_type,
+                             rated_power=Power_kW(num(c)), eff_curve=ca(c["curve"]), power_type=power_type,
                              switchboard_id=SwbId(swb))
 
 
@@ -58,7 +65,7 @@ def build_cogas(c):
     if c.get("emissions"):
         curves = [EmissionCurve(points_per_kwh=[EmissionCurvePoint(load_ratio=p[0], emission_g_per_kwh=p[1]) for p in e["points"]],
                                 emission=EmissionType[e["species"]]) for e in c["emissions"]]
-    return COGAS(name=c.get("name", "cogas"), rated_power=Power_kW(c["rated"]), eff_curve=ca(c["curve"]),
+    return COGAS(name=c.get("name", "cogas"), rated_power=Power_kW(num(c)), eff_curve=ca(c["curve"]),
                  rated_speed=Speed_rpm(c.get("speed", 3000.0)), gas_turbine_power_curve=gt, steam_turbine_power_curve=st,
                  fuel_type=TypeFuel[c.get("fuel_type", "DIESEL")], fuel_origin=FuelOrigin[c.get("fuel_origin", "FOSSIL")],
                  emissions_curves=curves, nox_calculation_method=NOxCalculationMethod[c.get("nox", "TIER_3")])
@@ -73,9 +80,9 @@ def fname(spec):
 def build_serial(spec, type_, power_type, cls=SerialSystemElectric, **extra):
     stages = [build_basic(s, swb=spec["swb"], power_type=power_type, name=f"{fname(spec)}_{i}") for i, s in enumerate(spec["stages"])]
     return cls(type_=type_, name=fname(spec), power_type=power_type, components=stages, switchboard_id=SwbId(spec["swb"]),
-               rated_power=Power_kW(spec["rated"]), rated_speed=Speed_rpm(spec.get("speed", 1000.0)), **extra) \
+               rated_power=Power_kW(num(spec)), rated_speed=Speed_rpm(spec.get("speed", 1000.0)), **extra) \
         if cls is SerialSystemElectric else cls(name=fname(spec), components=stages, switchboard_id=SwbId(spec["swb"]),
-                                                rated_power=Power_kW(spec["rated"]), rated_speed=Speed_rpm(spec.get("speed", 1000.0)), **extra)
+                                                rated_power=Power_kW(num(spec)), rated_speed=Speed_rpm(spec.get("speed", 1000.0)), **extra)
 
 
 def build_electric_component(spec):
@@ -89,7 +96,7 @@ def build_electric_component(spec):
         return Genset(name=name, aux_engine=eng, generator=gen, rectifier=rect)
     if k == "fuel_cell_system":
         fc = spec["fuel_cell"]
-        cell = FuelCell(name=name + "_cell", rated_power=Power_kW(fc["rated"]), eff_curve=ca(fc["curve"]),
+        cell = FuelCell(name=name + "_cell", rated_power=Power_kW(num(fc)), eff_curve=ca(fc["curve"]),
                         fuel_type=TypeFuel[fc.get("fuel_type", "HYDROGEN")], fuel_origin=FuelOrigin[fc.get("fuel_origin", "RENEWABLE_NON_BIO")])
         conv = build_basic(spec["converter"], swb, TypePower.POWER_SOURCE, name + "_conv")
         return FuelCellSystem(name=name, fuel_cell_module=cell, converter=conv, switchboard_id=SwbId(swb), number_modules=spec.get("modules", 1))
@@ -114,12 +121,12 @@ def build_mechanical_component(spec):
         if spec.get("gearbox") is not None:
             g = spec["gearbox"]
             gb = BasicComponent(type_=TypeComponent.GEARBOX, power_type=TypePower.POWER_TRANSMISSION, name=name + "_gb",
-                                rated_power=Power_kW(g["rated"]), eff_curve=ca(g["curve"]))
+                                rated_power=Power_kW(num(g)), eff_curve=ca(g["curve"]))
             return MainEngineWithGearBoxForMechanicalPropulsion(name=name, engine=eng, gearbox=gb, shaft_line_id=spec["shaft_line"])
         return MainEngineForMechanicalPropulsion(name=name, engine=eng, shaft_line_id=spec["shaft_line"])
     if k == "mech_load":
         return MechanicalPropulsionComponent(type_=TypeComponent[spec.get("type", "PROPELLER_LOAD")], power_type=TypePower.POWER_CONSUMER,
-                                             name=name, rated_power=Power_kW(spec["rated"]), eff_curve=ca(spec["curve"]),
+                                             name=name, rated_power=Power_kW(num(spec)), eff_curve=ca(spec["curve"]),
                                              shaft_line_id=spec["shaft_line"])
     raise ValueError(k)
 
@@ -187,6 +194,26 @@ LABELS = {"generator": "Generator", "genset": "Genset", "fuel_cell_system": "Fue
 CATEGORY = {"generator": "source", "genset": "source", "fuel_cell_system": "source", "coges": "source", "other_load": "consumer", "drive": "consumer",
             "pti_pto": "pti_pto", "battery": "storage", "battery_system": "storage", "supercap": "storage", "supercap_system": "storage",
             "main_engine": "source", "mech_load": "consumer"}
+
+
+def mark_int_ratings(rng, spec, p=0.25):
+    """With probability p the plant's whole-number ratings are handed over as Python ints (`rated_power=1000`)."""
+    if rng.random() >= p:
+        return spec
+
+    def walk(x):
+        if isinstance(x, dict):
+            if "rated" in x and isinstance(x["rated"], (int, float)) and float(x["rated"]).is_integer():
+                x["int_rating"] = True
+            for v in x.values():
+                walk(v)
+        elif isinstance(x, list):
+            for v in x:
+                walk(v)
+    walk(spec.get("electric", []))
+    walk(spec.get("electric_objects", []))
+    walk(spec.get("mechanical", []))
+    return spec
 
 
 def relabel(spec, style="per-kind"):
